@@ -678,3 +678,74 @@ def expand(t, path, depth=0):
                 return ("app", e[1], args)
         return ("app", t[2], ())
     return tuple(expand(x, path, depth + 1) if isinstance(x, tuple) else x for x in t)
+
+
+# ---------------------------------------------------------------------------------------------------------------------------
+class InlineWalker(Walker):
+    """path walker that walks crate-private helpers (module-private functions, functions nested in a function body) in the
+    caller's context, so that extracting code into such a helper does not hide it from a structural rule.  `facts` gives the
+    bodies; `pred(name, body)` says which callees to inline (default: not `pub`, or nested inside the function under analysis)."""
+
+    def __init__(self, body, facts, pred=None, depth=0, **kw):
+        super().__init__(body, **kw)
+        self.facts = facts
+        self.depth = depth
+        self.root = getattr(self.body, "path", None)
+        self.pred = pred
+
+    def inlinable(self, nm):
+        bl = self.facts.by_path.get(nm, [])
+        if len(bl) != 1 or bl[0]["kind"] not in ("Fn", "AssocFn") or not bl[0].get("blocks"):
+            return None
+        b = bl[0]
+        if self.pred is not None:
+            return b if self.pred(nm, b) else None
+        private = str(b.get("vis") or "").startswith("Restricted")
+        nested = self.root is not None and nm.startswith(self.root + "::")
+        if (private or nested) and not b.get("impl_trait"):
+            return b
+        return None
+
+    def call_hook(self, st, t, fname, resolved, args):
+        if self.depth >= 4:
+            return None
+        for nm in (resolved, fname):
+            if not nm:
+                continue
+            cb = self.inlinable(nm)
+            if cb is not None:
+                return self.inline_call(st, cb, args)
+        return None
+
+    def inline_call(self, st, callee, args):
+        w = InlineWalker(callee, self.facts, self.pred, depth=self.depth + 1, max_paths=self.max_paths, unroll=self.unroll)
+        w.root = self.root
+        s2 = self.fork(st)
+        caller_env, caller_visits, caller_blocks = s2["env"], s2["visits"], s2["blocks"]
+        s2["env"] = {i + 1: a for i, a in enumerate(args)}
+        s2["visits"], s2["blocks"] = {}, []
+        w.init_env = dict(s2["env"])
+        paths = w.run(start=0, state=s2)
+        forks = []
+        for p in paths:
+            if p.end[0] == "return":
+                ns = p.state
+                ns["env"] = dict(caller_env)
+                ns["visits"], ns["blocks"] = dict(caller_visits), list(caller_blocks)
+                forks.append({"state": ns, "res": p.ret})
+            else:
+                self.paths.append(p)
+        return forks
+
+
+def walk_inline(body, facts, **kw):
+    return InlineWalker(body, facts, **kw).run()
+
+
+def norm_ok(t, depth=0):
+    """`match r { Ok(v) => .. }` and `r?` name the same payload: ('field', ('variant', r, 'Ok'|'Some'), '0') -> ('okval', r)"""
+    if not isinstance(t, tuple) or not t or depth > 40:
+        return t
+    if t[0] == "field" and len(t) == 3 and isinstance(t[1], tuple) and t[1] and t[1][0] == "variant" and t[1][2] in ("Ok", "Some") and str(t[2]) == "0":
+        return ("okval", norm_ok(t[1][1], depth + 1))
+    return tuple(norm_ok(x, depth + 1) for x in t)
